@@ -48,9 +48,9 @@ fn create_file(dir_path: &Path, file_number: &FileNumber) -> io::Result<File> {
 impl Directory {
     /// Open a `Directory`, or create a new, empty, one. `dir_path` must exist and be a directory.
     pub fn open(dir_path: &Path) -> io::Result<Directory> {
-        let mut file_numbers: Vec<u64> = Default::default();
         #[cfg(mrecordlog_verif)]
-        crate::verif_hooks::fs::on_read_dir(dir_path)?;
+        use crate::verif_hooks::shadow_std as std;
+        let mut file_numbers: Vec<u64> = Default::default();
         for dir_entry_res in std::fs::read_dir(dir_path)? {
             let dir_entry = dir_entry_res?;
             if !dir_entry.file_type()?.is_file() {
@@ -61,12 +61,6 @@ impl Directory {
             } else {
                 continue;
             };
-            if let Some(seq_number) = filename_to_position(&file_name) {
-                file_numbers.push(seq_number);
-            }
-        }
-        #[cfg(mrecordlog_verif)]
-        for file_name in crate::verif_hooks::fs::virtual_dir_entries(dir_path) {
             if let Some(seq_number) = filename_to_position(&file_name) {
                 file_numbers.push(seq_number);
             }
@@ -99,11 +93,11 @@ impl Directory {
     ///
     /// We never delete the last file.
     pub(crate) fn gc(&mut self) -> io::Result<()> {
+        #[cfg(mrecordlog_verif)]
+        use crate::verif_hooks::shadow_std as std;
         while let Some(file) = self.files.take_first_unused() {
             let filepath = filepath(&self.dir, &file);
             info!(file=%filepath.display(), "gc remove file");
-            #[cfg(mrecordlog_verif)]
-            let filepath = crate::verif_hooks::fs::on_remove_file(&filepath)?;
             std::fs::remove_file(&filepath)?;
         }
         Ok(())
